@@ -39,6 +39,7 @@ TReset ==
        /\ failed' = failed \cup
             (IF AllSame(e.acc) /\ ~e.acc[1] /\ \A k \in 1..e.nuser : Plain(e.rules[k].tmpl)
              THEN {<<e.case, l, IF \E k \in DOMAIN e.errs : e.panicked THEN "RegPanic" ELSE "RejectedPlain">>} ELSE {})
+            \cup (IF AllSame(e.acc) /\ e.acc[1] # e.altacc THEN {<<e.case, l, "ConfigEqAnnot">>} ELSE {})
   /\ l' = l + 1 /\ UNCHANGED drift
 
 NormOut(o) == [k |-> o.k, why |-> "", m |-> o.m,
@@ -58,6 +59,7 @@ TLookup ==
                 \cup (IF \E i \in DOMAIN outs : ~Complete(rules, e.kind, e.path, outs[i]) THEN {"Complete"} ELSE {})
                 \cup (IF \E i \in DOMAIN outs : ~LiteralFirst(rules, e.kind, e.path, outs[i]) THEN {"LiteralFirst"} ELSE {})
                 \cup (IF \E i \in DOMAIN e.outs : ~SameOutcome(e.outs[i], e.outs[1]) THEN {"OrderIndep"} ELSE {})
+                \cup (IF e.alt.k \notin {"noalt", "panic"} /\ ~SameOutcome(e.alt, e.outs[1]) THEN {"ConfigEqAnnot"} ELSE {})
          mech == MechLookup(rules, e.kind, e.path)
          drifted == ~crashed /\ (mech.k # outs[1].k \/ (mech.k = "dispatch" /\ mech # outs[1]))
      IN
